@@ -92,6 +92,34 @@ def failing_clauses(r: dict) -> list[str]:
     return out
 
 
+def k_reasons(r: dict) -> list[str]:
+    """Twin of Lean `kReasons`: why the row is outside the wide call model's theorem (`bindsOkK`)."""
+    a, s = r["aten"], r["sig"]
+    pos, kw = a["positional"], a["kwonly"]
+    names = [p["name"] for p in s]
+    anames = [x["name"] for x in pos + kw]
+    out = []
+    if failing_clauses(r):
+        out.append("ruleFails")
+    if not all(s[i]["name"] == x["name"] for i, x in enumerate(pos) if i < len(s)):
+        out.append("posName")
+    if not all((not p["required"]) or j >= len(pos) or not pos[j]["hasDefault"] for j, p in enumerate(s)):
+        out.append("requiredOwn")
+    if len(set(names)) != len(names) or len(set(anames)) != len(anames):
+        out.append("dupNames")
+    return out
+
+
+def lean_outside_k() -> dict:
+    """`outsideK` of OV/Props/C16.lean: {(qualified, isComplex | None): [reasons]}."""
+    src = core.strip_comments((core.LEAN / "OV" / "Props" / "C16.lean").read_text())
+    out = {}
+    for m in re.finditer(r'\|\s*"([^"]+)",\s*(_|true|false)\s*=>\s*\[([^\]]*)\]', src):
+        kind = None if m.group(2) == "_" else m.group(2) == "true"
+        out[(m.group(1), kind)] = [d.strip().lstrip(".") for d in m.group(3).split(",") if d.strip()]
+    return out
+
+
 def binds_ok_k(r: dict) -> bool:
     """Twin of Lean `bindsOkK`: the row is also right for calls that pass positional schema arguments by keyword."""
     a, s = r["aten"], r["sig"]
@@ -1025,10 +1053,16 @@ def main(run: core.Run) -> None:
             raise core.Infra(f"python twin and Lean model disagree on row {r['qualified']}: twin={t} lean={l}")
     stats["rows_with_defects"] = sum(1 for t in twin_def if t)
     lean_k = drv.ask(["rowk" + row_line(r)[3:] for r in rows])
-    for r, l in zip(rows, lean_k):
-        r["bindsOkK"] = binds_ok_k(r) if r["res"] in ("resolved", "builtin") else False
-        if r["res"] in ("resolved", "builtin") and str(r["bindsOkK"]).lower() != l:
-            raise core.Infra(f"python twin and Lean model disagree on bindsOkK for {r['qualified']}: twin={r['bindsOkK']} lean={l}")
+    listed_k = lean_outside_k()
+    k_unlisted = []
+    for idx, (r, l) in enumerate(zip(rows, lean_k)):
+        kr = k_reasons(r)
+        r["bindsOkK"] = (not kr) and r["res"] in ("resolved", "builtin")
+        if (",".join(kr) or "ok") != l:
+            raise core.Infra(f"python twin and Lean model disagree on kReasons for {r['qualified']}: twin={kr} lean={l}")
+        want = listed_k.get((r["qualified"], r["isComplex"]), listed_k.get((r["qualified"], None), []))
+        if kr != want:
+            k_unlisted.append((idx, kr, want))
     stats["rows_right_for_positional_by_keyword"] = sum(1 for r in rows if r["bindsOkK"])
 
     problems: list[dict] = []  # property failures with a concrete input on the real code
@@ -1087,6 +1121,7 @@ def main(run: core.Run) -> None:
             meta.append((idx, npos, kws, False))
     outs = drv.ask(lines)
     row_call_fail: dict[int, list] = {}
+    k_call_fail: dict[int, list] = {}
     for (idx, npos, kws, conf), mout in zip(meta, outs):
         r, f = rows[idx], objs[idx]
         res = rb.bind(f, npos, kws)
@@ -1115,6 +1150,7 @@ def main(run: core.Run) -> None:
                                        "detail": "bindsOkK holds but the real binder does not bind this call right: " + "; ".join(bad)})
             elif bad:
                 stats["by_keyword_calls_failing_outside_theorem"] += 1
+                k_call_fail.setdefault(idx, []).append((npos, kws, bad))
         elif conf:
             bad = judge_binding(r, f, npos, kws, res)
             if bad:
@@ -1122,6 +1158,20 @@ def main(run: core.Run) -> None:
                 stats["conforming_calls_failing_oracle"] += 1
 
     mark('opinfo_and_bind')
+    # ---- rows whose standing w.r.t. the wide call model differs from the kernel-checked list `outsideK`
+    for idx, kr, want in k_unlisted:
+        r = rows[idx]
+        new_reasons = [x for x in kr if x not in want]
+        fails = k_call_fail.get(idx, [])
+        if new_reasons and fails and "ruleFails" not in new_reasons:
+            npos, kws, bad = fails[0]
+            problems.append({"kind": "call", "qualified": r["qualified"], "isComplex": r["isComplex"], "npos": npos, "kws": kws,
+                             "defects": kr, "schema": r["schemaText"], "function": r["func"], "wide_call_model": True,
+                             "detail": "a call passing positional schema arguments by keyword (as python decompositions do) is "
+                             "no longer bound right: " + "; ".join(bad)})
+        elif "ruleFails" not in new_reasons:
+            tie_broken.append({"kind": "outsideK", "qualified": r["qualified"],
+                               "detail": f"registry_outsideK_exact lists {want} for this row, the tree gives {kr}"})
     # ---- verdict per row
     known_rows: dict[str, list[str]] = {}
     for idx, (r, t) in enumerate(zip(rows, twin_def)):
